@@ -344,8 +344,9 @@ def set_mtime(path, t):
     os.utime(path, (BASE_T + 100 * t, BASE_T + 100 * t))
 
 
-def run_history(exe, idx, mode, g0, l0, ops, times):
-    """replays one history; returns per-op observations"""
+def run_history(exe, idx, mode, g0, l0, ops, times, symlink=False):
+    """replays one history; returns per-op observations.  With symlink=True the grammar and lexer paths handed to the
+    builders are symbolic links (whose own timestamps never change) to the files that are edited."""
     casedir = os.path.join(WORKROOT, "h%05d" % idx)
     shutil.rmtree(casedir, ignore_errors=True)
     src, out = os.path.join(casedir, "src"), os.path.join(casedir, "out")
@@ -353,6 +354,11 @@ def run_history(exe, idx, mode, g0, l0, ops, times):
     os.makedirs(out)
     ypath, lpath = os.path.join(src, "g.y"), os.path.join(src, "l.l")
     yout, lout = os.path.join(out, "g.y.rs"), os.path.join(out, "l.l.rs")
+    if symlink:
+        for link, real in ((ypath, os.path.join(src, "real_g.y")), (lpath, os.path.join(src, "real_l.l"))):
+            open(real, "w").close()
+            os.symlink(real, link)
+            os.utime(link, (BASE_T, BASE_T), follow_symlinks=False)
     with open(ypath, "w") as f:
         f.write(_G[g0][0])
     with open(lpath, "w") as f:
@@ -464,10 +470,20 @@ def _run(ctx, exe, mexe, rng):
         l0 = rng.choice(VALID_L)
         ops = gen_history(rng, mode, 12)
         hs.append((mode, g0, l0, ops, random_times(rng, ops) if rng.random() < 0.6 else default_times(ops)))
+    # the same through symbolic links: the staleness test must look at the file the link points to
+    symlinked = set()
+    for mode in ("P", "C"):
+        for ops in ([("B",), ("Y", 1), ("B",), ("B",)], [("B",), ("Y", 2), ("B",), ("Y", 1), ("B",), ("B",)],
+                    [("Y", 4), ("B",), ("S", "vis", 1), ("B",), ("Y", 0), ("B",)]):
+            symlinked.add(len(hs))
+            hs.append((mode, 0, 0, ops, default_times(ops)))
+    symlinked.add(len(hs))
+    hs.append(("C", 0, 0, [("B",), ("L", 1), ("B",), ("L", 2), ("Y", 1), ("B",), ("B",)], default_times([0] * 7)))
+    ctx.count("histories_through_symlinks", len(symlinked))
     mlines = [model_line(m, g0, l0, ops, ts) for (m, g0, l0, ops, ts) in hs]
     model = core.run_lines([mexe], mlines)
     with concurrent.futures.ThreadPoolExecutor(max_workers=max(2, core.NPROC)) as ex:
-        futs = [ex.submit(run_history, exe, i, m, g0, l0, ops, ts) for i, (m, g0, l0, ops, ts) in enumerate(hs)]
+        futs = [ex.submit(run_history, exe, i, m, g0, l0, ops, ts, i in symlinked) for i, (m, g0, l0, ops, ts) in enumerate(hs)]
         impl = [f.result() for f in futs]
 
     # descriptor <-> bytes must be a bijection over the whole run (both directions:
